@@ -76,10 +76,12 @@ impl<'h> FindMatchesImpl<'h> {
     pub(crate) fn next_match(&mut self) -> Option<Match> {
         let mut result;
         trace!("Find next match from offset {}", self.offset);
+        // The indices of the char_indices iterator are relative to the current offset.
+        let haystack = self.input.get(self.offset..).unwrap_or_default();
         loop {
             result = self
                 .scanner_impl
-                .find_from(self.input, self.char_indices.clone());
+                .find_from(haystack, self.char_indices.clone());
             if let Some(mut matched) = result {
                 self.advance_beyond_match(matched);
                 matched.add_offset(self.offset);
@@ -108,10 +110,10 @@ impl<'h> FindMatchesImpl<'h> {
         let mut matches = Vec::with_capacity(n);
         let mut mode_switch = false;
         let mut new_mode = 0;
+        // The indices of the char_indices iterator are relative to the current offset.
+        let haystack = self.input.get(self.offset..).unwrap_or_default();
         for _ in 0..n {
-            let result = self
-                .scanner_impl
-                .peek_from(self.input, char_indices.clone());
+            let result = self.scanner_impl.peek_from(haystack, char_indices.clone());
             if let Some(mut matched) = result {
                 let token_type = matched.token_type();
                 Self::advance_char_indices_beyond_match(&mut char_indices, matched);
